@@ -25,7 +25,16 @@ RULE = (
     "(optional event+encoding header with the 3 events; device id, user id, password None/''/text of 0..255 UTF-8 bytes incl. "
     "127/128/255), status query, de-registration, response without second header / success with refresh 1..127 / failure "
     "with each of the 4 reasons, all with every combination of acknowledgement / priority / control flags where the flag is "
-    "free, CSBK trailer on/off.  Distinct by case hash; non-trivial: TMS sequence >= 32 or address >= 128 octets or an "
+    "free, CSBK trailer on/off.  Every run also executes a DETERMINISTIC boundary pass: TMS address lengths {0,1,127,128,129,"
+    "255} x text lengths {0,1,63,64,65,100,127,128,129,199,200 code units} (patterned and 10/80-filled), address lengths x "
+    "every optional-header variant x all flag combinations, address / text contents equal to / starting with / ending with "
+    "each octet that means something in the formats (00 04 10 1F 31 3F 74 7F 80 9F BF D0 E0 F0 F5 FF, and 10 80), every "
+    "sequence number x address lengths {0,1,127,128,255}; ARS complete cross of the three length-value fields at lengths "
+    "{0,1,127,128,129,255} in six content styles (ASCII, ending with 10 so that a following 128-byte field gives 10 80 across "
+    "the boundary, all 10, ending with 80 (U+0080), starting C2 80 / ending 00, 3- and 4-octet characters), all 16 flag "
+    "combinations x device lengths (first header 10 followed by length 80), special texts (00 10 1F 7F U+0080 U+00FF "
+    "U+FFFF U+10FFFF ...) alone / as prefix / as suffix in each field position, None / '' in all combinations; refresh "
+    "times 1..127 and all failure reasons x trailer x flags are complete in the grid.  Distinct by case hash; non-trivial: TMS sequence >= 32 or address >= 128 octets or an "
     "optional header present; ARS optional/second header present or an identifier >= 128 bytes or CSBK trailer."
 )
 ASSUMPTIONS = [
@@ -315,6 +324,149 @@ def _ars_strategy():
     return st.one_of(reg("device_reg"), reg("user_reg"), resp, simple)
 
 
+# ---------------------------------------------------------------------------------------------- deterministic boundary passes
+
+LENS = [0, 1, 127, 128, 129, 255]
+# octets that mean something somewhere in the two formats: CSBK trailer 10 80, LV terminator / empty 00, failure reason FF,
+# first-header values (1F 9F BF 3F D0 E0 F0 F5 74 31), more-headers bit 80, 5-bit masks 1F / 7F, encoding 04
+DELIMS = [0x00, 0x04, 0x10, 0x1F, 0x31, 0x3F, 0x74, 0x7F, 0x80, 0x9F, 0xBF, 0xD0, 0xE0, 0xF0, 0xF5, 0xFF]
+TEXT_UNITS = [0, 1, 63, 64, 65, 100, 127, 128, 129, 199, 200]
+FLAGS3 = [(a, b, c) for a in (False, True) for b in (False, True) for c in (False, True)]
+FLAGS4 = [(a, b, c, d) for a in (False, True) for b in (False, True) for c in (False, True) for d in (False, True)]
+
+
+def _pat(n: int, salt: int) -> bytes:
+    return bytes((salt + 7 * i) & 0xFF for i in range(n))
+
+
+def tms_boundary_cases():
+    out = []
+
+    def add(cls, pdu, i, address: bytes, **kw):
+        ack, reserved, more_in = FLAGS3[i % 8]
+        c = {"pdu": pdu, "ack": ack, "reserved": reserved, "more_in": more_in, "address": address.hex(), "capability": None, "sn": None, "encoding": None}
+        c.update(kw)
+        out.append((c, cls))
+
+    i = 0
+    # address length x text length (adjacent variable-length fields), patterned and delimiter-filled contents
+    for la in LENS:
+        for lt in TEXT_UNITS:
+            for fill in (None, 0x10, 0x80):
+                i += 1
+                addr = _pat(la, i) if fill is None else bytes([fill]) * la
+                msg = _pat(2 * lt, 3 * i) if fill is None else bytes([0x10, 0x80]) * lt
+                add("addr_len_x_text_len", "text", i, addr, sn=[0, 31, 32, 127, 16, 96][i % 6], encoding=[None, "UCS2_LE", "UNDEFINED"][i % 3], message=msg.hex())
+    # address length x the PDUs without payload, every optional-header variant
+    for la in LENS:
+        for k, sn in enumerate([None, 0, 16, 31, 32, 127]):
+            for fl in range(8):
+                add("addr_len_x_ack", "ack", fl, _pat(la, la + k), sn=sn)
+        for cap in (None, 0, 1, 2, 3):
+            for fl in range(8):
+                add("addr_len_x_availability", "availability", fl, _pat(la, la + 1), capability=cap)
+    # address / text contents equal to, starting with and ending with every meaningful octet
+    for x in DELIMS:
+        for k, addr in enumerate([bytes([x]), bytes([x, 0x41]), bytes([0x41, x]), bytes([x, x]), bytes([x]) * 127, bytes([x]) * 128, bytes([x]) * 255, bytes([0x10, 0x80]),
+                                  bytes([0x41, 0x10, 0x80]), bytes([0x10, 0x80, 0x41]), bytes([x, 0x10, 0x80]), bytes([0x10, 0x80, x])]):
+            i += 1
+            add("addr_content", "availability", i, addr, capability=[None, 0, 3][k % 3])
+            add("addr_content", "ack", i + 1, addr, sn=[None, 0, x & 0x7F][k % 3])
+            add("addr_content", "text", i + 2, addr, sn=x & 0x7F, encoding=[None, "UCS2_LE"][k % 2], message=bytes([x, x]).hex())
+        for k, msg in enumerate([bytes([x, x]), bytes([0x41, 0, x, x]), bytes([x, x, 0x41, 0]), bytes([x, 0]), bytes([0, x]), bytes([0x10, 0x80]), bytes([x, x]) * 100, bytes([0x10, 0x80, x, x]), bytes([x, x, 0x10, 0x80])]):
+            i += 1
+            add("text_content", "text", i, bytes([x])[: k % 2], sn=[0, 16, 31, 32, 64, 127][k % 6], encoding=[None, "UCS2_LE"][k % 2], message=msg.hex())
+    # sequence numbers: complete range x address length x flag combinations (grid covers the short-address part completely)
+    for sn in range(128):
+        for k, la in enumerate([0, 1, 127, 128, 255]):
+            add("sn_x_addr_len", "ack", sn + k, _pat(la, sn), sn=sn)
+            add("sn_x_addr_len", "text", sn + k + 3, _pat(la, sn + 1), sn=sn, encoding=[None, "UCS2_LE"][(sn + k) % 2], message=_pat(2 * (sn % 5), sn).hex())
+    return out
+
+
+def _s(nbytes: int, style: str) -> str:
+    """text whose UTF-8 form has exactly nbytes octets; style selects the last / first octets"""
+    if nbytes == 0:
+        return ""
+    if style == "ascii":
+        return "".join(chr(0x30 + (i * 7) % 75) for i in range(nbytes))
+    if style == "ends_10":  # last octet = first trailer octet (the next field's length octet may be 80)
+        return _s(nbytes - 1, "ascii") + "\x10"
+    if style == "all_10":
+        return "\x10" * nbytes
+    if style == "ends_80":  # U+0080 = C2 80
+        return ("\x10" if nbytes % 2 else "") + "\u0080" * (nbytes // 2) if nbytes >= 2 else "\x10"
+    if style == "starts_80ish":  # first octets C2 80 .. and last octet 00
+        return ("\u0080" * (nbytes // 2) + ("\x00" if nbytes % 2 else "")) if nbytes >= 2 else "\x00"
+    if style == "wide":  # 3- and 4-octet characters (EF BF BF / F0 90 80 80), padded with FF-adjacent U+00FF (C3 BF)
+        out, left = "", nbytes
+        while left >= 4:
+            out += "\U00010000" if (left // 4) % 2 else "\uffff\x7f"
+            left -= 4
+        return out + {0: "", 1: "\x7f", 2: "\u00ff", 3: "\uffff"}[left]
+    raise ValueError(style)
+
+
+STYLES = ["ascii", "ends_10", "all_10", "ends_80", "starts_80ish", "wide"]
+SPECIAL_TEXTS = ["\x00", "\x10", "\x1f", "\x7f", "\u0080", "\u00ff", "\x10\u0080", "\u0080\x10", "\x10\x10", "\x00\x00", "\uffff", "\U0010ffff", "\x10\x80"[:1] + "\u0410"]
+
+
+def ars_boundary_cases():
+    out = []
+
+    def add(cls, pdu, i, **kw):
+        ack, prio, ctrl, csbk = FLAGS4[i % 16]
+        c = {"pdu": pdu, "ack": ack, "priority": prio, "control": ctrl, "csbk": csbk, "event": None, "device": None, "user": None, "password": None, "second": None}
+        c.update(kw)
+        out.append((c, cls))
+
+    i = 0
+    # three adjacent length-value fields: complete cross of the boundary lengths, six content styles
+    for ld in LENS:
+        for lu in LENS:
+            for lp in LENS:
+                for k, style in enumerate(STYLES):
+                    i += 1
+                    add("lv_len_cross:" + style, ["device_reg", "user_reg"][i % 2], i, event=[None, "INITIAL", "DONT_CARE", "REFRESH"][(i // 2) % 4],
+                        device=_s(ld, style), user=_s(lu, style), password=_s(lp, style), csbk=bool((i // 3) % 2))
+    # first header x device length (header octet 10 followed by length octet 80 etc.): every flag combination
+    for fl in range(16):
+        for ev in (None, "INITIAL"):
+            for ld in LENS:
+                for csbk in (False, True):
+                    add("flags_x_device_len", "device_reg", fl, event=ev, device=_s(ld, "ends_10"), user=None, password=None, csbk=csbk)
+    # field contents equal to / starting with / ending with the special octets, in each field position
+    for x in SPECIAL_TEXTS:
+        for var in (x, x + "a", "a" + x, x + x):
+            for pos in ("device", "user", "password"):
+                for csbk in (False, True):
+                    i += 1
+                    kw = {"device": "11", "user": "9", "password": "p"}
+                    kw[pos] = var
+                    add("special_content:" + pos, ["device_reg", "user_reg"][i % 2], i, event=[None, "REFRESH"][i % 2], csbk=csbk, **kw)
+                    kw2 = {"device": None, "user": None, "password": None}
+                    kw2[pos] = var
+                    add("special_content_alone:" + pos, ["user_reg", "device_reg"][i % 2], i + 5, event=[None, "INITIAL"][i % 2], csbk=csbk, **kw2)
+    # None / "" / absent in every combination
+    for d in (None, "", "1"):
+        for u in (None, "", "2"):
+            for pw in (None, "", "3"):
+                for csbk in (False, True):
+                    i += 1
+                    add("empty_fields", ["device_reg", "user_reg"][i % 2], i, event=[None, "INITIAL"][i % 2], device=d, user=u, password=pw, csbk=csbk)
+    return out
+
+
+def _run_boundary(ctx: Ctx, sub: SubCheck, oracle, cases, nontrivial):
+    def work(ch, t: Tally):
+        for c, cls in ch:
+            ctx.run_case(sub.name, oracle, c, t)
+            t.case(sub.name, key=c, nontrivial=nontrivial(c), cls="boundary:" + cls)
+
+    ctx.shards(work, [cases[i::32] for i in range(32)])
+    ctx.tally.extra.setdefault("deterministic_boundary_cases", {})[sub.name] = len(cases)
+
+
 def drv_tms(ctx: Ctx, sub: SubCheck):
     # complete grid: pdu x flags x sequence number (x capability) with a short address
     grid = []
@@ -338,6 +490,7 @@ def drv_tms(ctx: Ctx, sub: SubCheck):
                 t.cls(sub.name, "grid:" + k)
 
     ctx.shards(work, [grid[i::16] for i in range(16)])
+    _run_boundary(ctx, sub, oracle_tms, tms_boundary_cases(), tms_nontrivial)
     strat = _tms_strategy()
 
     def rec(c, t: Tally):
@@ -346,7 +499,7 @@ def drv_tms(ctx: Ctx, sub: SubCheck):
             t.cls(sub.name, k)
 
     warm_hypothesis_constants()
-    ctx.shards(lambda i, t: ctx.hypothesis(sub.name, strat, oracle_tms, ctx.pick(350, 8000), tally=t, shard=i, record=rec), list(range(16)))
+    ctx.shards(lambda i, t: ctx.hypothesis(sub.name, strat, oracle_tms, ctx.pick(2800, 14000), tally=t, shard=i, record=rec), list(range(ctx.pick(16, 80))))
 
 
 def drv_ars(ctx: Ctx, sub: SubCheck):
@@ -378,6 +531,7 @@ def drv_ars(ctx: Ctx, sub: SubCheck):
                 t.cls(sub.name, "grid:" + k)
 
     ctx.shards(work, [grid[i::16] for i in range(16)])
+    _run_boundary(ctx, sub, oracle_ars, ars_boundary_cases(), ars_nontrivial)
     strat = _ars_strategy()
 
     def rec(c, t: Tally):
@@ -386,7 +540,7 @@ def drv_ars(ctx: Ctx, sub: SubCheck):
             t.cls(sub.name, k)
 
     warm_hypothesis_constants()
-    ctx.shards(lambda i, t: ctx.hypothesis(sub.name, strat, oracle_ars, ctx.pick(300, 8000), tally=t, shard=i, record=rec), list(range(16)))
+    ctx.shards(lambda i, t: ctx.hypothesis(sub.name, strat, oracle_ars, ctx.pick(2400, 12000), tally=t, shard=i, record=rec), list(range(ctx.pick(16, 80))))
 
 
 SUBCHECKS = [
